@@ -5,7 +5,7 @@
    C10 (no source architecture keys), and the manifest part of C02 / C05.
 
    Header versions are integers major*100+minor: 0 = "0.0", 100 = "1.0", 101 = "1.1",
-   102 = "1.2".  An image is a record [n |-> name, ident |-> identity class,
+   102 = "1.2", 200 = "2.0" (a later format: read and checked like the newest known one).  An image is a record [n |-> name, ident |-> identity class,
    sums |-> checksum class]; cells maps <<variant, arch>> to a set of images.        *)
 EXTENDS Naturals, FiniteSets, Sequences, TLC
 CONSTANTS KnownArch,            \* the library's architecture table (incl. src, nosrc)
@@ -35,6 +35,18 @@ Add(v, a, img) ==
       THEN /\ out' = "ValueError" /\ UNCHANGED <<hdr, cells, exempt>>
       ELSE /\ cells' = Put(cells, <<v, a>>, img)
            /\ out' = "ok" /\ UNCHANGED <<hdr, exempt>>
+
+(* An identifying attribute of an image object that is already filed is reassigned by its owner (plain attribute
+   assignment: the library checks nothing, keeping the manifest unique is the caller's obligation, so only edits that
+   keep it unique are modelled).  What matters is that every LATER call sees the image as it is now: Eff(i) is the
+   object named i.n as filed (possibly edited); an Add of a colliding image after the edit is refused.              *)
+Eff(i) == IF \E x \in Filed(cells) : x.n = i.n THEN CHOOSE x \in Filed(cells) : x.n = i.n ELSE i
+Edit(n, id) ==
+  LET R(x) == IF x.n = n THEN [x EXCEPT !.ident = id] ELSE x
+      new  == [c \in DOMAIN cells |-> {R(x) : x \in cells[c]}]
+  IN  /\ \E x \in Filed(cells) : x.n = n /\ x.ident # id
+      /\ ~HasCollision(Filed(new))
+      /\ cells' = new /\ out' = "ok" /\ UNCHANGED <<hdr, exempt>>
 
 (* header.version is a public attribute (the repository's own tests assign it).
    exempt: a pre-1.1 format was *declared* by the caller or by a loaded file.      *)
